@@ -91,9 +91,14 @@ def handleTraj (args : List String) : Verdict :=
     -- names through the format's own topology reader
     let namesP := spec.nameChars == 0 || topStatus == "none" ||
       (topStatus == "ok" && topn == n && (names.zip topNames).all fun (a, b) => (a.take spec.nameChars).toString == (b.take (a.take spec.nameChars).toString.length).toString)
-    let agree := framesOk && posA && velA && frcA && boxA
-    let ok := framesOk && posP && velP && frcP && boxP && namesP
-    let which := if !framesOk then s!"FRAMES written {F} read {nread}" else if !posP then "POS " ++ posM else if !velP then "VEL " ++ velM
+    -- nothing invented: a frame written without velocities (forces) must not come back with non-zero velocities (forces)
+    let nonzero := fun (vs : List (List Rat)) => vs.any fun v => v.any fun x => x != 0
+    let inventV := vel == 0 && back.any fun b => b.hv && nonzero b.vel
+    let inventF := frc == 0 && back.any fun b => b.hf && nonzero b.frc
+    let agree := framesOk && posA && velA && frcA && boxA && !inventV && !inventF
+    let ok := framesOk && posP && velP && frcP && boxP && namesP && !inventV && !inventF
+    let which := if !framesOk then s!"FRAMES written {F} read {nread}" else if inventV then "INVENTED-VELOCITIES written without velocities, read back with non-zero ones"
+      else if inventF then "INVENTED-FORCES written without forces, read back with non-zero ones" else if !posP then "POS " ++ posM else if !velP then "VEL " ++ velM
       else if !frcP then "FORCE " ++ frcM else if !boxDiagP then "BOX-DIAG " ++ boxM else if !boxOffP then "BOX-OFFDIAG " ++ boxOffM else if !namesP then s!"NAMES topology reader: {topStatus.take 60} {topNames.take 3}" else ""
     pure { agree := agree, propOk := ok, tag := tag,
            msg := if !ok then s!"C08-{fmt.toUpper}-{which}" else s!"read-back differs from the codec model: frames={framesOk} pos={posA} vel={velA} force={frcA} box={boxA}" }
